@@ -89,6 +89,7 @@ func runC10(c *Check) {
 	p := c.Mod(ModSingle)
 	ruleNoBatchUseAfterCommit(c, p, "C10-R11", singlePkg)
 	ruleStoreNotBuffered(c, p, "C10-R12", singlePkg)
+	ruleNoStaleReadAcrossUnlock(c, "C10-R13", []*Prog{p})
 	c.Doc("C10-R1", "EO+GA: in AddBatch the success edge of the datastore Put precedes every write of the in-memory queue.")
 	c.Doc("C10-R2", "EO: no Put / queue write reaches the queue-full return; no AddBatch reaches the invalid-id or empty-batch returns of SubmitBatchTxs.")
 	c.Doc("C10-R3", "FS: the queue write is behind maxQueueSize <= 0 or len(queue) < maxQueueSize.")
